@@ -243,8 +243,8 @@ VERUS = {
     'resize': dict(props=['C08', 'C13', 'C01', 'C06', 'C03', 'C05'], tier='quick',
                    desc='resize_inner on extracted text together with the functions it calls on the new table (prepare_insert_slot, find_insert_slot, set_ctrl_hash, ...), for every pair of table sizes and both widths, element storage as ghost sequences of element identities, the hasher arbitrary (lawful only for the placement clause), against the contracts of prepare_resize (a fresh entirely EMPTY table with the requested capacity, or an error) and of the FullBucketsIndices iterator (the indices of the FULL buckets, ascending, each once): on success the table has room for the request, no tombstone, growth_left = capacity - items, every FULL bucket carries the tag of its element and is reachable by a probe for its hash, and the multiset of elements is unchanged; on error nothing changed and the caller asked for fallible behaviour; find_insert_slot is only ever called on a table that still has an EMPTY bucket (counting argument from items <= capacity < buckets)',
                    paired={}),
-    'set': dict(props=['C07'], tier='quick',
-                desc='HashSet set algebra on extracted text over an abstract view (the mathematical set of elements plus the duplicate-free order in which the iterator yields them; contains / len as specified by C01): Intersection::next and Difference::next (the next element of the driving set that is / is not in the other set, everything skipped is not / is), the constructors difference, intersection (whichever set is smaller drives: exactly A n B), union (one set in full, then the rest of the other: exactly A u B, nothing twice), symmetric_difference (exactly the elements in one set only, nothing twice), and is_subset / is_superset / is_disjoint equal the mathematical predicates, including the length pre-check of is_subset (cardinality lemma)',
+    'set': dict(props=['C07', 'C11'], tier='quick',
+                desc='HashSet set algebra on extracted text over an abstract view (the mathematical set of elements plus the duplicate-free order in which the iterator yields them; contains / len as specified by C01): Intersection::next and Difference::next (the next element of the driving set that is / is not in the other set, everything skipped is not / is), the constructors difference, intersection (whichever set is smaller drives: exactly A n B), union (one set in full, then the rest of the other: exactly A u B, nothing twice), symmetric_difference (exactly the elements in one set only, nothing twice), and is_subset / is_superset / is_disjoint equal the mathematical predicates, including the length pre-check of is_subset (cardinality lemma); HashSet::eq is equality of the element sets and HashMap::eq holds exactly when both maps have the same keys with values that compare equal (for a value type whose == meets its specification), whatever the layout, capacity, history or hasher',
                 paired={}),
     'alloc': dict(props=['C12', 'C08', 'C02'], tier='quick',
                   desc='the allocation path on extracted text: new_uninitialized (against the contracts of calculate_layout_for and of the allocator call: the control pointer block + ctrl_offset stays inside the block, buckets + WIDTH control bytes follow it, bucket_mask = buckets - 1 < 2^62, growth_left = capacity), fallible_with_capacity (capacity 0 gives the unallocated singleton, otherwise a table with the minimal admissible bucket count, every control byte EMPTY, nothing stored, whole capacity available) and prepare_resize (the same, which is the contract unit resize assumes); every error return happens in fallible mode only',
